@@ -22,6 +22,8 @@ K_MAP = "known:map-indirect-slot-size"
 K_RECUR = "known:recursive-named-func-lowered-raw"
 K_ALIAS = "known:alias-func-extra-size-lost"
 
+BUILD_TIMEOUT = 2700   # watchdog only (a build needs 2-20 s on an idle machine); expiry = inconclusive, never a verdict
+
 UFIELDS = ["S", "A", "RS", "RA", "RFA", "AS", "SA", "RSA", "SS", "WO", "WM", "WR", "RI", "RAI"]
 
 
@@ -183,6 +185,8 @@ def unit_failures(u, U, F, C):
             cls = None
             if ft[0] == "func" and RS * 2 == S:
                 cls = K_FUNC
+            elif u["recursive_func"] and RS < S:
+                cls = K_RECUR     # descriptor built from the unconverted named type: func members one word
             out.append(("fieldsize", "field %s: Sizeof=%d reflect Field.Type.Size=%d" % (path, S, RS), cls))
     # canaries
     names = ["chan", "map", "interface", "reflect.Set"]
@@ -202,9 +206,9 @@ def build_and_run(chk, llgo, d, tag):
     """returns dict(kind -> (rc_build, RunResult|None, build_err))"""
     res = {}
     exe_l, exe_g = os.path.join(d, "prog.llgo.out"), os.path.join(d, "prog.go.out")
-    rc, so, se = core.llgo_build(chk.work, llgo, d, exe_l)
+    rc, so, se = core.llgo_build(chk.work, llgo, d, exe_l, timeout=BUILD_TIMEOUT)
     res["llgo"] = (rc, core.run_prog([exe_l], timeout=120, interposer=True) if rc == 0 else None, (so + se)[-3000:])
-    rc, so, se = core.go_build(chk.work, d, exe_g)
+    rc, so, se = core.go_build(chk.work, d, exe_g, timeout=BUILD_TIMEOUT)
     res["go"] = (rc, core.run_prog([exe_g], timeout=120) if rc == 0 else None, (so + se)[-3000:])
     return res
 
@@ -231,7 +235,7 @@ def leg_c(chk):
                 with open(os.path.join(d, fn), "w") as f:
                     f.write(txt)
             exe = os.path.join(d, "probe.out")
-            rc, so, se = core.llgo_build(w, llgo, d, exe)
+            rc, so, se = core.llgo_build(w, llgo, d, exe, timeout=BUILD_TIMEOUT)
             if rc != 0:
                 return ("probe", rc, (so + se)[-2000:], {})
             runs = {}
@@ -246,12 +250,11 @@ def leg_c(chk):
 
     def bg():
         try:
-            llgo_box["llgo"] = core.build_llgo(w)
             import time as _t
             t1 = _t.time()
-            first = job("probe")          # also warms the run's private llgo package cache (runtime, reflect)
-            box["t_llgo_and_probe_s"] = round(_t.time() - t1, 1)
-            box["results"] = [first] + core.pmap(job, progs, workers=4)
+            llgo_box["llgo"] = core.build_llgo(w)
+            box["t_llgo_and_probe_s"] = round(_t.time() - t1, 1)      # llgo itself
+            box["results"] = core.pmap(job, ["probe"] + progs, workers=4)
             box["t_c_builds_s"] = round(_t.time() - t1, 1)
         except BaseException as ex:      # surfaced by the caller
             box["error"] = ex
@@ -266,12 +269,15 @@ def leg_c_finish(chk, th, box, progs, nprog, nunits):
     if "error" in box:
         raise box["error"]
     results = box["results"]
-    chk.cov["wall_c_probe_build_s"] = box.get("t_llgo_and_probe_s")
+    chk.cov["wall_c_llgo_build_s"] = box.get("t_llgo_and_probe_s")
     chk.cov["wall_c_builds_s"] = box.get("t_c_builds_s")
 
     # ---- fixed probes first
     _, prc, perr, runs = results[0]
-    if prc != 0:
+    if prc == -999:
+        chk.inconclusive += 1      # build watchdog expired (overloaded machine): no observation
+        runs = {}
+    elif prc != 0:
         core.broken("C08: probe program does not build with llgo:\n" + perr)
     probe_cls = {"trailing": K_TRAIL, "func": K_FUNC, "map": K_MAP, "recursive": K_RECUR, "alias": K_ALIAS}
     chk.cov["c_probe_results"] = {}
@@ -293,6 +299,9 @@ def leg_c_finish(chk, th, box, progs, nprog, nunits):
         k, d, units, src = p
         grc, grun, gerr = res["go"]
         lrc, lrun, lerr = res["llgo"]
+        if grc == -999 or lrc == -999:
+            chk.inconclusive += 1  # build watchdog expired
+            continue
         if grc != 0:
             invalid += 1
             chk.cov.setdefault("invalid_generated_detail", gerr[-400:])
